@@ -555,6 +555,8 @@ class Session:
                     pass
                 if op.get("before") is not None:
                     outcome = M.Unspec("copy_to has no before")
+            elif op.get("via") in ("append_child", "prepend_child"):
+                call = lambda: getattr(tgt, op["via"])(other, **({} if op.get("deep") is None else {"deep": op["deep"]}))
             else:
                 call = lambda: tgt.add(other, before=self._before_real(op.get("before")), deep=op.get("deep"))
         elif k == "fromdict":
@@ -802,6 +804,12 @@ class Session:
                     self.count("unsupported_refused_with_other_type")
                 post = self.ident_snapshot()
                 self.count("refusals_state_compared")
+                if op["op"] == "addtree" and getattr(self, "_last_foreign", None):
+                    other, snap = self._last_foreign
+                    if self._foreign_snapshot(other) != snap:
+                        findings.append(Finding("C13:refusal_changed_state",
+                                                f"refused add of a tree ({outcome.why}: {type(exc).__name__}) changed the *source* tree (e.g. the order of its top nodes)"))
+                        findings.append(Finding("C07:source_changed", "a refused add of a tree changed the source tree"))
                 if post != pre:
                     findings.append(Finding("C13:refusal_changed_state",
                                             f"refused call ({outcome.why}: {type(exc).__name__}: {exc}) changed the tree"))
@@ -1178,7 +1186,13 @@ def _gen_kind(s, rng, k, nodes, hostile, allow_unspec):
         if s.flavour not in ("str", "expl"):
             sp = [[f"F{l}", d, k2] for l, d, k2 in sp]
         op = {"op": "addtree", "parent": p, "spec": sp, "deep": rng.choice([None, None, True, False]),
-              "before": _pick_before(rng, m, P_, hostile, allow_unspec), "via": rng.choice(["add", "add", "copy_to"])}
+              "before": _pick_before(rng, m, P_, hostile, allow_unspec), "via": rng.choice(["add", "add", "copy_to", "append_child", "prepend_child"])}
+        if op["via"] in ("append_child", "prepend_child"):
+            # the shortcut routes of a node (they have their own parameter defaults): at either end of its child list
+            if p == ROOT:
+                op["via"] = "add"
+            else:
+                op["before"] = None if op["via"] == "append_child" else True
         if op["via"] == "copy_to":
             op["before"] = None
             if op["deep"] is None:
